@@ -8,8 +8,12 @@ PROP = 'C03'
 BUDGET = {'quick': 120, 'thorough': 1500}
 
 
-def _obj(kind, shape, fr_name, perm=None, origin=(0, 0, 0)):
+def _obj(kind, shape, fr_name, perm=None, origin=None):
     scale = None
+    if shape.endswith('~'):          # polygon given in the opposite rotational order (its library normal is reversed)
+        o = _obj(kind, shape[:-1], fr_name, perm, origin)
+        o.rev = True
+        return o
     if '*' in shape:
         shape, sc = shape.split('*')
         scale = F(sc)
@@ -19,7 +23,13 @@ def _obj(kind, shape, fr_name, perm=None, origin=(0, 0, 0)):
 
 
 def _ref(o, off=None):
-    return B.rpoly(o, off) if isinstance(o, B.Poly2) else B.rbody(o, off)
+    if not isinstance(o, B.Poly2):
+        return B.rbody(o, off)
+    r = B.rpoly(o, off)
+    if getattr(o, 'rev', False):
+        r.v = [r.v[0]] + r.v[:0:-1]
+        r.n = R.vscale(F(-1), r.n)
+    return r
 
 
 def fam_pair(ctx, ka, sa, fa, kb, sb, fb, permb, base, w, swap, method):
@@ -73,6 +83,13 @@ def families(tier, seed):
         # polygon through polyhedron
         (PH, 'cube', 'axis', PG, 'square', 'axis', None, (1, 1, -1), (0, 0, 1)),
         (PH, 'cube', 'axis', PG, 'tri', 'axis', 8, (-1, 1, 1), (1, 0, 0)),
+        # polygon in an oblique supporting plane of the body: touches along an edge only (t = +-1, the body once on the positive and once
+        # on the negative side of the polygon's normal), cuts through in between
+        (PH, 'cube', 'axis', PG, 'square*2', 'yz45', None, (F(1, 2), 0, 0), (0, -1, 1)),
+        # ... touches at a vertex only (the apex of the tetrahedron at t = 2), the polygon in either rotational order (body on the negative /
+        # positive side of its normal); t = 0: coplanar with the base face
+        (PH, 'tetra', 'axis', PG, 'square*2', 'axis', None, (F(-1, 2), F(-1, 4), 0), (0, 0, 1)),
+        (PH, 'tetra', 'axis', PG, 'square*2~', 'axis', None, (F(-1, 2), F(-1, 4), 0), (0, 0, 1)),
         # polyhedron x polyhedron
         (PH, 'cube', 'axis', PH, 'cube', 'axis', None, (0, 0, 0), (1, 0, 0)),
         (PH, 'cube', 'axis', PH, 'cube', 'axis', None, (1, 1, 0), (0, 0, 1)),
@@ -82,6 +99,10 @@ def families(tier, seed):
         (PH, 'cube', 'axis', PH, 'cube*1/4', 'axis', None, (F(3, 4), F(3, 4), F(1, 2)), (1, 0, 0)),
     ]
     extra = [
+        # vertex touching in a plane with normal (1,-1,2) (t = -1), body on the positive / on the negative side of the polygon's normal
+        (PH, 'cube', 'axis', PG, 'square*2', 'oblique', None, (0, 0, 0), (0, 0, 1)),
+        (PH, 'cube', 'axis', PG, 'square*2', 'oblique', None, (2, -2, 0), (0, 0, -1)),
+        (PH, 'tetra', 'axis', PG, 'square*2', 'yz45', None, (F(-3, 2), F(1, 4), F(1, 4)), (0, -1, 1)),
         (PG, 'penta', 'planar', PG, 'tri', 'planar', None, (0, 0, 0), (1, 0, 0)),
         (PH, 'tetra', 'axis', PG, 'quad', 'axis', None, (-1, -1, 0), (0, 0, 1)),
         (PH, 'tetra', 'oblique', PG, 'tri', 'oblique', None, (0, 0, 0), (1, 0, 0)),
